@@ -132,6 +132,9 @@ def canon_record(cfg, r, rec):
         st = nr.steps
         T_ = len(st.seq)
         cols = dict(seq=[int(s) for s in st.seq], start=tick(st.ts_start), end=tick(st.ts_end), delay=tick(st.delay))
+        # the recorded scheduling terms of AsyncStepRecord
+        for fld in ("ts_scheduled", "ts_max", "ts_end_prev", "phase", "phase_scheduled", "phase_inputs", "phase_last"):
+            if hasattr(st, fld) and getattr(st, fld) is not None: cols[fld] = tick(getattr(st, fld))
         if rec.get("state", True) and st.state is not None: cols["state"] = [int(a) for a in onp.asarray(st.state.a)[:, 0]]
         if rec.get("output", True) and st.output is not None:
             oa = onp.asarray(st.output.a)
@@ -173,6 +176,10 @@ class Perturb:
             if name in ("submit", "task_start"):
                 with self.lock: d = self.rnd.random()
                 if d < s.get("p", 0.5): time.sleep(d * s.get("max_ms", 3) / 1000.0)
+        elif s["kind"] == "points":
+            # park the calling thread for a while at the named protocol points (sup:before_append, sup:after_append, sup:before_check,
+            # stop:after_flip, stop:after_cancel): widens the windows between the shared-variable accesses of the lifecycle handshake
+            if name in s["points"]: time.sleep(s.get("ms", 30) / 1000.0)
         elif s["kind"] == "starve":
             if name == "task_start" and info.get("owner") == s["owner"]: time.sleep(s.get("ms", 20) / 1000.0)
 
@@ -251,7 +258,9 @@ def run_job(job):
     try:
         for ep in range(job.get("episodes", 1)):
             del HOSTLOG[:]
-            gs = gs0.replace(eps=jnp.array(ep, dtype=jnp.int32)) if job.get("set_eps") else gs0
+            gs_start = gs0.replace(eps=jnp.array(ep, dtype=jnp.int32)) if job.get("set_eps") else gs0
+            if job.get("carry") and ep > 0: gs_start = gs        # the user restarts from the graph state the previous episode ended with
+            gs = gs_start
             obs = []; user_calls = 0
             drive = job.get("drive", "reset_step"); steps = job["steps"][ep] if isinstance(job["steps"], list) else job["steps"]
             if drive == "run":
